@@ -20,20 +20,22 @@ def main():
         M = Model(species=['A'], reactions=rx, initial_condition_dict={'A': 0})
         cycle = rng.choice([1.0, 2.0, 5.0])
         delta = rng.choice([0.1, 0.25, 0.5])
-        T = np.arange(0, rng.choice([2.0, 4.0]) + 1e-9, delta)
+        t0 = rng.choice([0.0, 0.0, 3.0, 10.0])          # a cell may start at a non-zero time (continuing after a division)
+        T = t0 + np.arange(0, rng.choice([2.0, 4.0]) + 1e-9, delta)
         v = StochasticTimeThresholdVolume(cycle, 1e9, 0.0)      # division far away
         py_seed_random(rng.randint(1, 10 ** 6))
         itf = ModelCSimInterface(M)
         itf.py_set_dt(delta)
-        v.py_initialize(np.array([0.0]), np.array(M.get_parameter_values() if hasattr(M, 'get_parameter_values') else [1.0]), 0.0, 1.0)
+        itf.py_set_initial_time(t0)
+        v.py_initialize(np.array([0.0]), np.array(M.get_parameter_values() if hasattr(M, 'get_parameter_values') else [1.0]), t0, 1.0)
         res = VolumeSSASimulator().py_volume_simulate(itf, v, T)
         vol = res.py_get_volume()
         g = 0.69314718056 / cycle
         n += 1
         for m, t in enumerate(res.py_get_timepoints()):
-            lo, hi = math.exp(g * max(t - delta, 0.0)), math.exp(g * t)
+            lo, hi = math.exp(g * max(t - t0 - delta, 0.0)), math.exp(g * (t - t0))
             if not (vol[m] > 0 and lo * (1 - 1e-9) <= vol[m] <= hi * (1 + 1e-9)) or (m > 0 and vol[m] < vol[m - 1]):
-                return dict(reproduced=True, call='volume_simulate(live_reaction=%s, cycle=%r, delta=%r) row %d t=%r' % (live, cycle, delta, m, float(t)),
+                return dict(reproduced=True, call='volume_simulate(live_reaction=%s, cycle=%r, delta=%r, initial time %r) row %d t=%r' % (live, cycle, delta, t0, m, float(t)),
                             observed=float(vol[m]), expected=[lo, hi])
     return dict(reproduced=False, evaluations=n)
 
